@@ -8,7 +8,7 @@ def ipcbed():
     return build.harness("ipcbed", "asan", ["ipcbed_main.c", "ipcbed_server.c", "vp.c", "vpguard.c"], wraps=["random", "srand", "mmap", "munmap"])
 
 
-STAGE_LIST = [simple.Stage("c02", ipcbed, ["--mode", "c02"], quick=96, thorough=4000, timeout=1200, chunk=2)]
+STAGE_LIST = [simple.Stage("c02", ipcbed, ["--mode", "c02"], quick=96, thorough=2400, timeout=1800, chunk=2)]
 STAGES = {s.name: s.builder for s in STAGE_LIST}
 RULE = ("one case = one server process (shared-memory or socket transport, negotiated maximum 256 B..1 MiB, optional "
         "enforced buffer size) and 1-3 client processes; every message carries (client, sequence, length, PRNG payload, "
